@@ -729,6 +729,8 @@ Section SetGet.
       bs_nt b' = nt /\ sn_nprim (bs_segn b') = nt /\ sn_nseg (bs_segn b') = vlen (sn_segs (bs_segn b')) /\
       bs_tris b' = map (fun i => nth (N.to_nat i) (bs_tris b) (0, 0, 0)) inds /\
       segs_tile 0 (sn_segs (bs_segn b')) nt /\
+      sn_segs (bs_segn b') = segs_spec (cntlt skeys) (inf_segs inf) 0 /\
+      sn_recs (bs_segn b') = recs_spec (inf_segs inf) 0 /\
       exists inf', get_segmentation b' = Ok (inf', skeys) /\
                    inf_shape (inf_segs inf') = shape_spec (inf_segs inf) 0.
   Proof.
@@ -785,6 +787,7 @@ Section SetGet.
       2:{ symmetry. apply cntlt_none. eapply Forall_impl; [|exact Hsr]. cbn; intros; lia. }
       replace (cntlt skeys (0 + Z.of_nat (ids_total (inf_segs inf)))) with nt in Ht; [exact Ht|].
       rewrite <- Hsv. symmetry. apply cntlt_all. eapply Forall_impl; [|exact Hsr]. cbn; intros; lia. }
+    split; [reflexivity|]. split; [reflexivity|].
     (* GetSegmentation *)
     unfold get_segmentation. cbn [bs_nt bs_segn sn_segs sn_recs sn_ssf].
     rewrite Houtlen. rewrite (wrap32_small nt) by lia.
@@ -973,6 +976,8 @@ Theorem set_get_labels b inf labels :
     bs_nt b' = nt /\ sn_nprim (bs_segn b') = nt /\ sn_nseg (bs_segn b') = vlen (sn_segs (bs_segn b')) /\
     bs_tris b' = map (fun i => nth (N.to_nat i) (bs_tris b) (0, 0, 0)) (map fst sorted) /\
     segs_tile 0 (sn_segs (bs_segn b')) nt /\
+    sn_segs (bs_segn b') = segs_spec (cntlt (map snd sorted)) (inf_segs inf) 0 /\
+    sn_recs (bs_segn b') = recs_spec (inf_segs inf) 0 /\
     exists inf', get_segmentation b' = Ok (inf', map snd sorted) /\
                  inf_shape (inf_segs inf') = shape_spec (inf_segs inf) 0.
 Proof.
